@@ -339,8 +339,8 @@ class S3TapeCassette(TapeCassette):
                 iter_index += 1
             key = next(random_day_iterator, None)
             if key:
-                result = self._metadata_key_parser.parse(key)
-                recording_id = result.named['id']
+                # The key is the metadata key of this cassette's prefix followed by the recording id
+                recording_id = key[len(self.METADATA_KEY.format(key_prefix=self.key_prefix, id='')):]
                 _logger.info(u'Found filtered recording id {}'.format(recording_id))
                 yield recording_id
                 count += 1
